@@ -313,7 +313,15 @@ def check_C15(tier):
              label="Parse/Covers/Join machines = declarative; order axioms over all valid commands (ASSUME)")
     c.mc("MC_Command", "MC_C15.cfg", dict(MaxText=2, MaxCmd=4, Deviations='{"CoversNoBoundary"}', Emit=""),
          expect_violation=["CoversIsPrefixOrder", "NoTextualPrefixCover"], label="sensitivity: no boundary test")
-    c.replay("command", r.cases, rule="every text over {/,a,b,A} up to length %d through Parse/IsValid; every pair of valid commands up "
+    if not q:
+        ok, msg = tlc.run_tlapm("CoversOrder")
+        if ok is None:
+            c.notes.append("TLAPS CoversOrder: not decided (%s)" % msg[-200:])
+        elif not ok:
+            raise Machinery("TLAPS: the order axioms of the segment-prefix relation are not proved: %s" % msg)
+        else:
+            c.notes.append("TLAPS: %s (spec/proofs/CoversOrder.tla: reflexive, transitive, antisymmetric, top - sequences of any length)" % msg)
+    c.replay("command", r.cases, rule="every text over {/,a,b,A, space} up to length %d through Parse/IsValid; every pair of valid commands up "
              "to length %d through Covers/Segments; Join/New of up to 2 segments; non-trivial = rejected or multi-segment texts, covering or "
              "shared-textual-prefix pairs, joins" % (mt, mcmd))
     for k in range(1 if q else 4):
@@ -698,6 +706,18 @@ def check_chain(pid):
             c.mc("MC_Chain", qcfgs[0], dict(Deviations=spec["dev"], Emit=""),
                  expect_violation=["Agree", "AudIrrelevant", "SoundPrincipals", "SoundCommands", "Complete"],
                  label="sensitivity: deviation breaks machine = rules")
+        if pid in ("C01", "C02") and not q:
+            # beyond TLC's bounds: the loop invariant of verifyProofs discharged symbolically (Apalache) for every chain of up
+            # to 8 links over 5 principals and 5 commands with an arbitrary coverage relation
+            for label, args in (("Init => IndInv", ["--cinit=CInit", "--init=Init", "--inv=IndInv", "--length=0"]),
+                                ("IndInv /\\ Next => IndInv'", ["--cinit=CInit", "--init=IndInit", "--inv=IndInv", "--length=1"])):
+                ok, tail = tlc.run_apalache("ChainInd", args)
+                if ok is None:
+                    c.notes.append("Apalache %s: not decided (%s)" % (label, tail[-200:]))
+                elif not ok:
+                    raise Machinery("Apalache: the inductive invariant of ChainInd.tla does not hold (%s): spec error\n%s" % (label, tail))
+                else:
+                    c.notes.append("Apalache: %s holds (ChainInd.tla, chains <= 8 links, 5 principals, 5 commands, any coverage relation)" % label)
         tr = c.drive("chain", 1500 if q else 20000)
         c.validate("chain", "TraceChain", "TraceChain.cfg", tr, rule="random stores (<=6 principals, mixed key algorithms, "
                    "chains <=6, 0..2 deviations) judged by TraceChain", cfg_constants=dict(Prop=pid))
